@@ -76,7 +76,7 @@ def moment_spec(w, par, J, k):
     return tot
 
 
-def _mk_measure(R, base, lo, hi, kmax):
+def _mk_measure(R, base, lo, hi, kmax, scalar=None):
     def ob(w):
         xp = w.xp
         w.literal_arange = True
@@ -86,7 +86,15 @@ def _mk_measure(R, base, lo, hi, kmax):
         b, fb = gen_limit(w, "b", hi, R, 1.0)
         from .common import snapshot, unchanged
         su = snapshot(u)
-        tm = T.TruncatedGaussianMeasure(measure=u, lower_limit=a, upper_limit=b)      # REAL
+        if scalar is not None:
+            # limits given as Python scalars (the library's own usage: lower_limit=0.): broadcast to every component
+            lo_s, hi_s = scalar
+            ones = xp.ones((1 if R == 1 else w.size(R), 1))
+            a, fa = (lo_s * ones, True) if lo_s is not None else (None, False)
+            b, fb = (hi_s * ones, True) if hi_s is not None else (None, False)
+            tm = T.TruncatedGaussianMeasure(measure=u, lower_limit=lo_s, upper_limit=hi_s)      # REAL
+        else:
+            tm = T.TruncatedGaussianMeasure(measure=u, lower_limit=a, upper_limit=b)      # REAL
         x = w.arr("x", "N", 1)
         ind = 1.0 + 0.0 * ln_u(w, par, x)
         if fa:
@@ -255,6 +263,9 @@ def _register():
                     for how in ("get_density", "direct"):
                         REG.ob(f"TruncatedGaussianPDF[{how}]/R={R}/{base}/lower={lo}/upper={hi}", sorts=(["R"] if R != 1 else []) + ["N"],
                                funcs=F + FP, axioms=AX, tier="quick" if quick else "thorough")(_mk_pdf(R, base, lo, hi, how))
+            for nm, sc in (("lower=0.", (0.0, None)), ("lower=-0.5,upper=2.", (-0.5, 2.0)), ("upper=1.", (None, 1.0))):
+                REG.ob(f"TruncatedGaussianMeasure/R={R}/{base}/scalar-limits/{nm}", sorts=(["R"] if R != 1 else []) + ["N"], funcs=F, axioms=AX,
+                       tier="quick" if (R == "R" and base == "measure") else "thorough")(_mk_measure(R, base, "finite", "finite", 3, sc))
             REG.ob(f"additivity/R={R}/{base}", sorts=(["R"] if R != 1 else []), funcs=F, axioms=AX,
                    tier="quick" if R == "R" else "thorough")(_mk_additive(R, base, 4))
     for base in ("measure", "density"):
